@@ -82,7 +82,12 @@ class Record:
     def __init__(self, name: str, module: str, fields: Dict[str, str], construct: Optional[str] = None,
                  invariant: Optional[str] = None, file: Optional[str] = None,
                  enum: Optional[List[Dict[str, Any]]] = None, value_eq: bool = True,
-                 mutable: Optional[List[str]] = None):
+                 mutable: Optional[List[str]] = None, subclasses: Optional[Dict[str, Dict[str, Any]]] = None,
+                 tag_field: str = "kind"):
+        # class hierarchy folded into one record sort: subclasses[name] = dict(tags=[ints], ctor=[field names,
+        # a trailing "*" gathers the remaining positional arguments into a tuple], min_args=n)
+        self.subclasses = subclasses or {}
+        self.tag_field = tag_field
         self.mutable = mutable or []    # fields that methods other than the constructor may write (caches)
         self.enum = enum or []          # small field assignments for cross-check / shadow inputs
         self.value_eq = value_eq        # dataclass-style structural __eq__
@@ -115,8 +120,14 @@ class Lemma:
         self.note = note
 
 
+class Axiom:
+    def __init__(self, name: str, types: Dict[str, str], body: str, why: str = ""):
+        self.name, self.types, self.body, self.why = name, types, body, why
+
+
 class Registry:
     def __init__(self):
+        self.axioms: Dict[str, Axiom] = {}
         self.contracts: Dict[str, Contract] = {}
         self.specs: Dict[str, Spec] = {}
         self.records: Dict[str, Record] = {}
@@ -161,6 +172,13 @@ def lemma(name: str, **kw) -> Lemma:
     return l
 
 
+def axiom(name: str, **kw) -> Axiom:
+    """an ASSUMED fact about the data model (listed among the assumptions in the evidence)"""
+    a = Axiom(name, **kw)
+    REG.axioms[name] = a
+    return a
+
+
 def syntactic(kind: str, **kw):
     """callshape / frame / exc-site obligations decided on the AST alone"""
     d = dict(kind=kind, **kw)
@@ -176,7 +194,7 @@ def load_all() -> Registry:
     if _loaded:
         return REG
     _loaded = True
-    env = dict(contract=contract, spec=spec, record=record, lemma=lemma, syntactic=syntactic)
+    env = dict(contract=contract, spec=spec, record=record, lemma=lemma, syntactic=syntactic, axiom=axiom)
     for path in sorted(glob.glob(os.path.join(ROOT, "contracts", "*.py"))):
         with open(path, encoding="utf-8") as fh:
             code = compile(fh.read(), path, "exec")
